@@ -17,7 +17,10 @@ EXTENDS Integers, Sequences, FiniteSets, TLC
 CONSTANTS Cap,          \* capacity of inflight per direction
           MaxBytes,     \* bytes each side may write
           MaxClock,     \* bound of the logical clock
-          Timeouts      \* set of timeout values of *WithTimeout calls
+          Timeouts,     \* set of timeout values of *WithTimeout calls
+          MaxIntr,      \* signal interruptions (EINTR) per timed wait
+          IntrMode      \* "remainder": after an interruption the wait goes on for exactly what is left (the code);
+                        \* "cumulative": what is left is recomputed as rem - (now - START) each time (a seeded defect)
 VARIABLES lst,          \* listener: "none" | "listening" | "closed"
           backlog,      \* connections established by the kernel but not yet accepted (0..1)
           st,           \* [c, s] -> "unbound" | "connected" | "closed"   (s: "unbound" until accepted)
@@ -79,7 +82,7 @@ AcceptStart(d) ==
     /\ d # Inf => clock + d <= MaxClock
     /\ IF backlog > 0
        THEN AcceptNow /\ Logged([op |-> "accept", res |-> "ok", d |-> d, start |-> clock, fin |-> clock]) /\ UNCHANGED pend
-       ELSE pend' = [pend EXCEPT !["l"] = [k |-> "accept", d |-> d, start |-> clock]] /\ UNCHANGED <<backlog, st, last, nb>>
+       ELSE pend' = [pend EXCEPT !["l"] = [k |-> "accept", d |-> d, start |-> clock, since |-> clock, rem |-> d, ni |-> 0]] /\ UNCHANGED <<backlog, st, last, nb>>
     /\ UNCHANGED <<lst, inflight, sent, received, clock>>
 AcceptComplete ==
     /\ pend["l"].k = "accept" /\ backlog > 0
@@ -88,7 +91,7 @@ AcceptComplete ==
     /\ UNCHANGED <<lst, inflight, sent, received, clock>>
 AcceptTimeout ==
     /\ pend["l"].k = "accept" /\ backlog = 0 /\ pend["l"].d # Inf
-    /\ clock >= pend["l"].start + pend["l"].d                 \* never earlier than the limit
+    /\ clock >= pend["l"].since + pend["l"].rem               \* the current leg of the wait is over
     /\ pend' = [pend EXCEPT !["l"] = NoPend]
     /\ Logged([op |-> "accept", res |-> "timeout", d |-> pend["l"].d, start |-> pend["l"].start, fin |-> clock])
     /\ UNCHANGED <<lst, backlog, st, inflight, sent, received, clock, nb>>
@@ -133,7 +136,7 @@ ReadStart(e, n, d) ==
                             /\ Logged([op |-> "read", e |-> e, res |-> "ok", n |-> k, d |-> d, start |-> clock, fin |-> clock]) /\ UNCHANGED pend
        ELSE IF st[Peer(e)] = "closed"
        THEN Logged([op |-> "read", e |-> e, res |-> "eof", n |-> 0, d |-> d, start |-> clock, fin |-> clock]) /\ UNCHANGED <<inflight, received, pend>>
-       ELSE pend' = [pend EXCEPT ![e] = [k |-> "read", n |-> n, d |-> d, start |-> clock]] /\ UNCHANGED <<inflight, received, last>>
+       ELSE pend' = [pend EXCEPT ![e] = [k |-> "read", n |-> n, d |-> d, start |-> clock, since |-> clock, rem |-> d, ni |-> 0]] /\ UNCHANGED <<inflight, received, last>>
     /\ UNCHANGED <<lst, backlog, st, sent, clock, nb>>
 ReadComplete(e) ==
     /\ pend[e].k = "read"
@@ -149,10 +152,19 @@ ReadComplete(e) ==
 \* blocking one read(2) itself would wait, for ever if the peer stays silent
 ReadTimeout(e) ==
     /\ pend[e].k = "read" /\ pend[e].d # Inf /\ inflight[In(e)] = <<>> /\ nb[e]
-    /\ clock >= pend[e].start + pend[e].d
+    /\ clock >= pend[e].since + pend[e].rem
     /\ pend' = [pend EXCEPT ![e] = NoPend]
     /\ Logged([op |-> "read", e |-> e, res |-> "timeout", d |-> pend[e].d, start |-> pend[e].start, fin |-> clock])
     /\ UNCHANGED <<lst, backlog, st, inflight, sent, received, clock, nb>>
+
+\* a signal handler runs while a timed call waits (ppoll returns EINTR): the wait is resumed for the remainder
+Interrupt(p) ==
+    /\ pend[p].k \in {"accept", "read"} /\ pend[p].d # Inf /\ pend[p].ni < MaxIntr
+    /\ clock < pend[p].since + pend[p].rem
+    /\ LET gone == IF IntrMode = "remainder" THEN clock - pend[p].since ELSE clock - pend[p].start
+           left == IF pend[p].rem > gone THEN pend[p].rem - gone ELSE 0
+       IN pend' = [pend EXCEPT ![p].rem = left, ![p].since = clock, ![p].ni = @ + 1]
+    /\ UNCHANGED <<lst, backlog, st, inflight, sent, received, clock, last, nb>>
 
 Close(e) == /\ st[e] = "connected" /\ pend[e] = NoPend
             /\ st' = [st EXCEPT ![e] = "closed"]
@@ -161,6 +173,7 @@ Close(e) == /\ st[e] = "connected" /\ pend[e] = NoPend
 Next == \/ Tick \/ Listen
         \/ \E d \in Timeouts \cup {Inf} : ConnectStart(d) \/ AcceptStart(d)
         \/ TryConnect \/ TryAccept \/ AcceptComplete \/ AcceptTimeout
+        \/ \E p \in {"c", "s", "l"} : Interrupt(p)
         \/ \E e \in {"c", "s"} :
              \/ \E n \in 1..MaxBytes : WriteStart(e, n) \/ \E d \in Timeouts \cup {Inf} : ReadStart(e, n, d)
              \/ WriteComplete(e) \/ ReadComplete(e) \/ ReadTimeout(e) \/ Close(e)
@@ -186,6 +199,9 @@ TimeoutNotEarly == last.res = "timeout" => last.fin >= last.start + last.d
 EofOnlyAfterAll == (last.op = "read" /\ last.res = "eof") => received[In(last.e)] = sent[In(last.e)]
 \* try-operations have no pending state: by construction pend never holds one
 TryNeverBlocks == \A p \in {"c", "s", "l"} : pend[p].k \in {"none", "accept", "read", "write"}
+\* however often a timed wait is interrupted, its legs add up to the limit
+LegsAddUp == \A p \in {"c", "s", "l"} :
+               (pend[p].k \in {"accept", "read"} /\ pend[p].d # Inf) => pend[p].since + pend[p].rem = pend[p].start + pend[p].d
 \* blocking calls complete once the peer acts (under weak fairness of the completion steps)
 ReadCompletes == \A e \in {"c", "s"} :
                    (pend[e].k = "read" /\ inflight[In(e)] # <<>>) ~> (pend[e].k # "read")
